@@ -182,6 +182,11 @@ fn check_set(queue: &[usize]) {
     kit::disarm();
     assert!(w.ev.is_set(), "[C14] is_set() reflects set()");
     assert!(queue_ok(&w), "[C01] queue consistent after set()");
+    let mut j = 0;
+    while j < N {
+        assert!(w.futs[j].is_terminated() == (w.st[j] == 3), "[C17] set() terminates no future: a woken waiter is not terminated until its poll returned Ready");
+        j += 1;
+    }
     let mut i = 0;
     while i < N {
         if w.st[i] == 1 {
@@ -222,9 +227,13 @@ fn check_reset(queue: &[usize]) {
 
 #[kani::proof]
 fn fresh_future_is_not_terminated() {
-    let ev = Ev::new(kani::any());
+    let set: bool = kani::any();
+    let ev = Ev::new(set);
+    assert!(ev.is_set() == set, "[C14] is_set() reflects the initial state");
     let f = ev.wait();
     assert!(!f.is_terminated(), "[C17] is_terminated() is false from creation");
+    assert!(f.wait_node.state == PollState::New && f.wait_node.task.is_none(), "[C14] a new wait future has not interacted with the event: whether it completes is decided at its first POLL, not at creation");
+    assert!(ev.inner.lock().waiters.is_empty(), "[C01] creating a future does not touch the queue");
 }
 
 // ---------------- instances: every queue shape x every target future, concretely ----------------
